@@ -463,8 +463,7 @@ func run(cfg caseCfg, ops []op, tr *track.Tracker, lg *nullLogger) *runOut {
 						sp.feats["rf-nowh"] = true
 					}
 					if len(sp.body) > 0 || sp.nRF > 0 {
-						sp.feats["rf-after-write"] = true
-						sp.insaneIf(true, "readfrom-after-body")
+						sp.feats["rf-after-write"] = true // inside Sane since the repair: ReadFrom appends to what was written
 					}
 					sp.commit(h, 200)
 					sp.feats["rf"] = true
@@ -763,6 +762,14 @@ func decodeCheck(cfg caseCfg, sp *spec, h http.Header, wire []byte, closed bool)
 		add("mismatch=leftover %d bytes follow the response", left)
 	}
 	wantClose := cfg.conn == "close" || (!cfg.v11 && cfg.conn != "ka")
+	if sp.feats["flush-identity-nocl"] {
+		// the head left before the body was complete and nothing announces its length (identity framing, no
+		// Content-Length): the only correct framing is "no Content-Length, body ends with the connection"
+		wantClose = true
+		if resp.ContentLength >= 0 {
+			add("mismatch=content-length a length (%d) is announced by a head that was sent before the body was complete", resp.ContentLength)
+		}
+	}
 	if wantClose != closed {
 		add("mismatch=close want=%v got=%v", wantClose, closed)
 	}
@@ -888,7 +895,7 @@ func execResp(e *lp.Exec, cline string, lines []string, tr *track.Tracker, lg *n
 	if http.StatusText(sp.status) == "" {
 		sp.feats["unknown-status"] = true
 	}
-	if sp.flushed && sp.wroteAfter && !out.chunked && sp.explicitCL < 0 {
+	if sp.flushed && !out.chunked && sp.explicitCL < 0 && sp.status != 204 && sp.status != 304 {
 		sp.feats["flush-identity-nocl"] = true
 	}
 	sp.insaneIf(bodiless(sp.status) && len(sp.body) > 0, "body-on-bodiless-status")
